@@ -509,7 +509,7 @@ def gen_case(rng, force=(), forbid=()):
             scratch = build(model)
             continue
         ops.append(op)
-        add_calls(targets, before, rng.randint(1, 4))
+        add_calls(targets, before, rng.choice([0, 1, 1, 2, 3, 4]))
     return {
         "prop": PROP,
         "world": world,
